@@ -565,6 +565,147 @@ func runC12(c *core.Ctx, o Options) {
 		}
 		c.Check(len(nilEntry) >= 1 && nLook >= 1, "c", "", "tables with nil entries and their lookups found", token.NoPos, fmt.Sprintf("%d tables, %d lookups", len(nilEntry), nLook), fmt.Sprintf("%d tables with nil entries, %d lookups (DefaultFlowFields and its lookup in makeMessage were confirmed)", len(nilEntry), nLook))
 	}
+	// ---- (d) determinism across runs in one process: nothing the generator computes is remembered in package-level state (a cache
+	// keyed by a field or group name outlives the Generator and its type mapping: the second schema gets the first one's answers)
+	{
+		rooted := func(v ssa.Value) *ssa.Global {
+			for i := 0; i < 10; i++ {
+				switch x := v.(type) {
+				case *ssa.Global:
+					return x
+				case *ssa.UnOp:
+					v = x.X
+				case *ssa.FieldAddr:
+					v = x.X
+				case *ssa.IndexAddr:
+					v = x.X
+				case *ssa.Field:
+					v = x.X
+				default:
+					return nil
+				}
+			}
+			return nil
+		}
+		nFn := 0
+		for _, fn := range pkgFuncs(gen) {
+			if fn.Name() == "init" || strings.HasPrefix(fn.Name(), "init#") {
+				continue
+			}
+			nFn++
+			an.AllInstrs(fn, func(in ssa.Instruction) {
+				var g *ssa.Global
+				how := ""
+				switch x := in.(type) {
+				case *ssa.Store:
+					g, how = rooted(x.Addr), "assigned"
+				case *ssa.MapUpdate:
+					g, how = rooted(x.Map), "updated"
+					// a memo table of a function of the key alone (parsed templates by their text) is harmless: what is stored
+					// must not be computed from the Generator (its schema, its type mapping)
+					if g != nil {
+						sl := newBackSlice(gen)
+						sl.noCallers = true
+						sl.follow(x.Value)
+						fromGen := false
+						for _, prm := range sl.params {
+							if an.TypeIs(prm.Type(), "generator", "Generator") {
+								fromGen = true
+							}
+						}
+						if !fromGen {
+							g = nil
+						}
+					}
+				}
+				if cc := an.CallOf(in); cc != nil && g == nil {
+					if cal := an.StaticCallee(cc); cal != nil && cal.Pkg != nil && cal.Pkg.Pkg.Path() == "sync" && len(cc.Args) > 0 {
+						switch cal.Name() {
+						case "Store", "LoadOrStore", "Swap", "CompareAndSwap", "Do":
+							g, how = rooted(cc.Args[0]), "written through sync."+cal.Name()
+						}
+					}
+				}
+				if g != nil && g.Pkg == gen {
+					c.Ob("d", an.NameOf(fn), "package-level variable "+g.Name()+" is not written during generation", in.Pos()).Fail("the package-level variable %s is %s in %s: what one generation computes is seen by the next one in the same process (another schema, another type mapping), so the output depends on what was generated before", g.Name(), how, an.NameOf(fn))
+				}
+			})
+		}
+		c.Check(nFn >= 30, "d", "", "generator functions scanned for package-level writes", token.NoPos, fmt.Sprint(nFn), fmt.Sprintf("only %d functions", nFn))
+	}
+	// ---- (g) one derivation per derived name: every place that builds <base>+"Grp" or <base>+"Entry" from a group's name uses the
+	// same transformation of the name (declaration and references are generated in different functions; two spellings that agree
+	// on NoXxx disagree on TotNoXxx, and the package no longer compiles)
+	{
+		shapes := map[string]map[string]token.Pos{} // suffix → shape → first site
+		for _, fn := range pkgFuncs(gen) {
+			an.AllInstrs(fn, func(in ssa.Instruction) {
+				bo, ok := in.(*ssa.BinOp)
+				if !ok || bo.Op != token.ADD {
+					return
+				}
+				suffix, isK := an.ConstString(bo.Y)
+				if !isK || (suffix != "Grp" && suffix != "Entry") {
+					return
+				}
+				call, ok := bo.X.(*ssa.Call)
+				shape := an.Render(bo.X)
+				if ok {
+					if cal := an.StaticCallee(&call.Call); cal != nil && cal.Pkg != nil && cal.Pkg.Pkg.Path() == "strings" {
+						var parts []string
+						for _, a := range call.Call.Args {
+							if k, isC := a.(*ssa.Const); isC {
+								parts = append(parts, an.Render(k))
+							} else {
+								parts = append(parts, "·")
+							}
+						}
+						shape = "strings." + cal.Name() + "(" + strings.Join(parts, ", ") + ")"
+					}
+				} else if phi, isPhi := bo.X.(*ssa.Phi); isPhi {
+					shape = "φ:" + phi.Comment
+				}
+				// a local that holds the derived base: its single definition
+				if ld := an.Unspill(bo.X); ld != bo.X {
+					if call, ok := ld.(*ssa.Call); ok {
+						if cal := an.StaticCallee(&call.Call); cal != nil && cal.Pkg != nil && cal.Pkg.Pkg.Path() == "strings" {
+							var parts []string
+							for _, a := range call.Call.Args {
+								if k, isC := a.(*ssa.Const); isC {
+									parts = append(parts, an.Render(k))
+								} else {
+									parts = append(parts, "·")
+								}
+							}
+							shape = "strings." + cal.Name() + "(" + strings.Join(parts, ", ") + ")"
+						}
+					}
+				}
+				if shapes[suffix] == nil {
+					shapes[suffix] = map[string]token.Pos{}
+				}
+				if _, dup := shapes[suffix][shape]; !dup {
+					shapes[suffix][shape] = bo.Pos()
+				}
+			})
+		}
+		all := map[string]token.Pos{}
+		for _, m := range shapes {
+			for sh, pos := range m {
+				all[sh] = pos
+			}
+		}
+		ob := c.Ob("g", "group type names", "the names <base>Grp and <base>Entry are derived from the group name in one way", token.NoPos)
+		switch {
+		case len(shapes["Grp"]) == 0 || len(shapes["Entry"]) == 0:
+			ob.Unknown("no derivation of the group type names found (anchor moved)")
+		case len(all) > 1:
+			ks := an.SortedKeys(all)
+			ob.Fail("the group type names are derived in %d different ways (%s at %s; %s at %s): they agree on names that start with \"No\" and differ on others, so a declaration and its references get different names", len(all), ks[0], c.RelPos(all[ks[0]]), ks[1], c.RelPos(all[ks[1]]))
+		default:
+			ob.Ok("%s", an.SortedKeys(all)[0])
+		}
+	}
 	// ---- (e) package name
 	ex := c.Func("generator", "Generator.Execute")
 	if c.Anchor("Execute", ex != nil, "Generator.Execute", posOf(ex)) {
@@ -712,7 +853,8 @@ func runC12(c *core.Ctx, o Options) {
 	}
 	// ---- (g) type table
 	checkTypeTable(c, "g", gpkg.Types)
-	c.RuleMin = map[string]int{"a": 15, "b": 3, "c": 3, "c′": 3, "c″": 3, "d": 7, "e": 3, "f": 3, "g": 6, "h": 121}
+	c.Explanation += " (d) also: no function of the generator writes a package-level variable with something computed from the Generator (a memo keyed by a name outlives the schema and the type mapping; a memo of a function of the key alone, such as parsed templates by their text, is accepted). (e) also: on the way to Generator.write no strings.* transformation is applied to a value built by filepath.* or derived from Execute's parameter (interprocedural backward slice inside the package). (g) also: every <base>+\"Grp\" / <base>+\"Entry\" is built from the group name by one and the same transformation."
+	c.RuleMin = map[string]int{"a": 15, "b": 3, "c": 3, "c′": 3, "c″": 3, "d": 8, "e": 3, "f": 3, "g": 7, "h": 121}
 	c.MinObl = 150
 }
 
@@ -1079,7 +1221,6 @@ func checkSchemaReadOnly(c *core.Ctx, rule string, gen *ssa.Package) {
 
 func strconvQuote(s string) string { return fmt.Sprintf("%q", s) }
 
-
 // backSlice collects what a value is computed from, inside one package: calls and parameters reached by walking operands
 // backwards through arithmetic, conversions, phis, standard-library calls (their arguments), module calls (their returned
 // values), parameters (the arguments at every static call site in the package) and field loads (every value stored to that field
@@ -1090,6 +1231,8 @@ type backSlice struct {
 	calls  []*ssa.Call
 	params []*ssa.Parameter
 	steps  int
+	// noCallers: parameters are recorded but not followed to the arguments at the call sites
+	noCallers bool
 }
 
 func newBackSlice(pkg *ssa.Package) *backSlice {
@@ -1106,6 +1249,9 @@ func (b *backSlice) follow(v ssa.Value) {
 	case *ssa.Const, *ssa.Global, *ssa.Function, *ssa.Builtin:
 	case *ssa.Parameter:
 		b.params = append(b.params, x)
+		if b.noCallers {
+			return
+		}
 		fn := x.Parent()
 		idx := -1
 		for i, p := range fn.Params {
@@ -1131,6 +1277,12 @@ func (b *backSlice) follow(v ssa.Value) {
 					}
 				}
 			})
+			if b.noCallers {
+				// (what the callee was given, too: its parameters are not followed back to here)
+				for _, a := range x.Call.Args {
+					b.follow(a)
+				}
+			}
 			return
 		}
 		for _, a := range x.Call.Args {
